@@ -503,7 +503,7 @@ func a7InPlace(c *Ctx, p *Program, prop string) {
 			}
 		}
 	}
-	c.Floor("A7-kernel", nk, 4)
+	c.Floor("A7-kernel", nk, 3)
 	// call sites of inverseTransform
 	n := p.CallGraph().Nodes[it]
 	ns := 0
